@@ -1117,10 +1117,74 @@ fn gen_write_history(r: &mut Rng, start: &Flat, target: &Flat) -> (Vec<Op>, Flat
     (ops, cur)
 }
 
+// ---------------------------------------------------------------- to_message into a target that is too small
+
+/// `Answer::to_message` for a legal answer that does not fit the target: 40 A records (640 octets of
+/// answer) with a push limit of 512 (a UDP response), and an RRset of more than 64 KiB into a stream
+/// target.  Whatever it does (truncate, set TC), it must not panic.
+fn to_message_small_target(cx: &mut Ctx) {
+    let apex = Name::bytes_from_str(APEX).unwrap();
+    // (owner label, type, number of records, rdata length)
+    let shapes: [(&str, u16, u32, usize); 6] = [("many", T_A, 40, 4), ("m15", T_A, 15, 4), ("m16", T_A, 16, 4), ("one", T_A, 1, 4), ("big", T_TXT, 300, 241), ("b245", T_TXT, 245, 241)];
+    let mut b = ZoneBuilder::new(apex.clone(), Class::IN);
+    for (l, ty, n, rdlen) in shapes {
+        let mut rs = Rrset::new(Rtype::from_int(ty), Ttl::from_secs(60));
+        for i in 0..n {
+            if ty == T_A { rs.push_data(mk_data(T_A, &Rd::Tok(i + 1))); } else {
+                let mut v = format!("{:05}", i).into_bytes(); v.resize(rdlen - 1, b'x');
+                rs.push_data(ZoneRecordData::Txt(Txt::<Bytes>::build_from_slice(&v).unwrap()));
+            }
+        }
+        b.insert_rrset(&Name::bytes_from_str(&format!("{}.{}", l, APEX)).unwrap(), SharedRrset::new(rs)).unwrap();
+    }
+    let zone = b.build();
+    let mut runs: Vec<(&str, Option<usize>, bool)> = vec![];
+    for l in ["many", "m15", "m16", "one"] { for lim in [None, Some(512usize), Some(100), Some(62), Some(61), Some(30)] { runs.push((l, lim, false)); } }
+    for l in ["big", "b245", "many"] { runs.push((l, None, true)); runs.push((l, Some(512), true)); }
+    for (qn, limit, stream) in runs {
+        let (_, ty, full, rdlen) = *shapes.iter().find(|x| x.0 == qn).unwrap();
+        let qt = Rtype::from_int(ty);
+        let qname = Name::bytes_from_str(&format!("{}.{}", qn, APEX)).unwrap();
+        let ans = zone.read().query(qname.clone(), qt).unwrap();
+        let mut qb = MessageBuilder::new_vec().question();
+        qb.push((qname, qt)).unwrap();
+        let qmsg: Message<Vec<u8>> = qb.into();
+        let case = format!("tomsg {} {} {}.zone.test {} {} {}", limit.map(|l| l.to_string()).unwrap_or_else(|| "-".into()), stream as u8, qn, ty, full, rdlen);
+        cx.out.begin(&case);
+        let r = catch_mut(|| {
+            if stream {
+                let mut builder = MessageBuilder::new_stream_vec();
+                if let Some(l) = limit { builder.set_push_limit(l); }
+                let m = ans.to_message(&qmsg, builder);
+                (m.counts().ancount(), m.header().tc())
+            } else {
+                let mut builder = MessageBuilder::new_vec();
+                if let Some(l) = limit { builder.set_push_limit(l); }
+                let m = ans.to_message(&qmsg, builder);
+                (m.counts().ancount(), m.header().tc())
+            }
+        });
+        let question_fits = limit.map(|l| l > 12 + qn.len() + 1 + 11 + 4).unwrap_or(true);
+        match r {
+            Err(e) => {
+                cx.out.case(&case, "Panic", true, "to_message/small_target");
+                // a question that does not fit is a caller error (documented panic); an answer that does not fit is not
+                if question_fits { cx.out.check(false, "to_message_panics_when_answer_does_not_fit", &case, &format!("panic: {}", e)); }
+            }
+            Ok((an, tc)) => {
+                cx.out.case(&case, &format!("an={} tc={}", an, tc as u8), true, "to_message/small_target");
+                cx.out.check(true, "ok", &case, "");
+                // everything fits: complete and not truncated; otherwise TC must say so
+                cx.out.check((an as u32 == full && !tc) || ((an as u32) < full && tc), "to_message_truncation_not_flagged", &case, &format!("ancount={} tc={}", an, tc));
+            }
+        }
+    }
+}
+
 // ---------------------------------------------------------------- ZoneTree (the set of zones)
 
 #[derive(Clone, Debug)]
-enum TOp { Ins(String, u32), Rem(String) }
+enum TOp { Ins(String, u32, u16), Rem(String, u16) }
 
 fn tname(s: &str) -> Name<Bytes> { Name::bytes_from_str(s).unwrap() }
 /// labels of an absolute name, top-most first
@@ -1137,9 +1201,9 @@ fn gen_tname(r: &mut Rng) -> String {
 fn tree_cases(cx: &mut Ctx, r: &mut Rng, n_trees: u64) {
     use domain::zonetree::ZoneTree;
     // corpus: zone-less intermediate nodes (a deeper zone inserted and removed again), removal of names
-    // that are no zone, re-insertion
-    let i = |n: &str, k: u32| TOp::Ins(n.to_string(), k);
-    let d = |n: &str| TOp::Rem(n.to_string());
+    // that are no zone, re-insertion, the same apex in several classes
+    let i = |n: &str, k: u32| TOp::Ins(n.to_string(), k, 1);
+    let d = |n: &str| TOp::Rem(n.to_string(), 1);
     let corpus: Vec<Vec<TOp>> = vec![
         vec![i("a.", 1), i("c.b.a.", 2), d("c.b.a.")],
         vec![i("c.b.a.", 2), d("c.b.a.")],
@@ -1149,10 +1213,14 @@ fn tree_cases(cx: &mut Ctx, r: &mut Rng, n_trees: u64) {
         vec![i(".", 1), i("b.a.", 2), d("."), i("a.", 3), d("b.a."), d("b.a.")],
         vec![i("a.", 1), d("a."), i("a.", 2), i("a.", 3)],
         vec![i("a.a.", 1), i("a.", 2), d("a.a."), d("q.")],
+        vec![i("a.", 1), TOp::Ins("a.".into(), 2, 3), TOp::Ins("b.a.".into(), 3, 3), TOp::Ins("a.".into(), 4, 4), d("a."), TOp::Rem("b.a.".into(), 4), TOp::Rem("a.".into(), 255)],
+        vec![TOp::Ins("a.".into(), 2, 3), TOp::Rem("a.".into(), 1), TOp::Rem("a.".into(), 3), TOp::Rem("a.".into(), 3)],
     ];
     let n_corpus = corpus.len() as u64;
     for ti in 0..(n_trees + n_corpus) {
         let mut ops: Vec<TOp> = vec![];
+        let multi = ti % 3 == 2;
+        let cls = |r: &mut Rng| -> u16 { if multi { *r.pick(&[1u16, 1, 3, 4]) } else { 1 } };
         if ti < n_corpus { ops = corpus[ti as usize].clone(); } else {
         let n_ops = r.range(1, 8);
         let mut used: Vec<String> = vec![];
@@ -1161,70 +1229,68 @@ fn tree_cases(cx: &mut Ctx, r: &mut Rng, n_trees: u64) {
                 // mostly a zone that is there, sometimes an ancestor / descendant of one, sometimes anything
                 let nm = match r.below(6) { 0 => gen_tname(r), 1 => { let u = r.pick(&used).clone(); format!("{}.{}", r.pick(&["a", "b"]), u).replace("..", ".") }
                     2 => { let u = r.pick(&used).clone(); match u.find('.') { Some(ix) if ix + 1 < u.len() => u[ix + 1..].to_string(), _ => u } } _ => r.pick(&used).clone() };
-                ops.push(TOp::Rem(nm));
+                ops.push(TOp::Rem(nm, cls(r)));
             } else {
-                let nm = if !used.is_empty() && r.chance(1, 6) { r.pick(&used).clone() } else { gen_tname(r) };
+                let nm = if !used.is_empty() && r.chance(1, 5) { r.pick(&used).clone() } else { gen_tname(r) };
                 used.push(nm.clone());
-                ops.push(TOp::Ins(nm, 100 + k as u32));
+                ops.push(TOp::Ins(nm, 100 + k as u32, cls(r)));
             }
         }
         }
-        let ops_s = ops.iter().map(|o| match o { TOp::Ins(n, i) => format!("ti:{}:{}", n, i), TOp::Rem(n) => format!("tr:{}", n) }).collect::<Vec<_>>().join(" ");
+        let ops_s = ops.iter().map(|o| match o { TOp::Ins(n, i, c) => format!("ti:{}:{}:{}", n, i, c), TOp::Rem(n, c) => format!("tr:{}:{}", n, c) }).collect::<Vec<_>>().join(" ");
         cx.out.begin(&ops_s);
         // implementation
         let mut tree = ZoneTree::new();
-        let mut ids: BTreeMap<String, u32> = BTreeMap::new();
+        let mut ids: BTreeMap<(String, u16), u32> = BTreeMap::new();
         let mut errs: Vec<String> = vec![];
-        // specification: a set of apex names
-        let mut set: BTreeMap<Vec<String>, u32> = BTreeMap::new();
-        let mut removed_any = false;
+        // specification: a set of (class, apex)
+        let mut set: BTreeMap<(u16, Vec<String>), u32> = BTreeMap::new();
         for (i, op) in ops.iter().enumerate() {
             match op {
-                TOp::Ins(n, id) => {
-                    let z = ZoneBuilder::new(tname(n), Class::IN).build();
+                TOp::Ins(n, id, c) => {
+                    let z = ZoneBuilder::new(tname(n), Class::from_int(*c)).build();
                     let res = tree.insert_zone(z);
-                    let want_ok = !set.contains_key(&tlabels(n));
-                    match &res { Ok(()) => { ids.insert(tname(n).to_string().to_ascii_lowercase(), *id); } Err(_) => errs.push(format!("{}:ZoneExists", i)) }
-                    { cx.verdict(res.is_ok() == want_ok, "zonetree_insert_result", &ops_s, &format!("op {} returned {:?}", i, res.is_ok())); }
-                    if want_ok { set.insert(tlabels(n), *id); }
+                    let want_ok = !set.contains_key(&(*c, tlabels(n)));
+                    match &res { Ok(()) => { ids.insert((tname(n).to_string().to_ascii_lowercase(), *c), *id); } Err(_) => errs.push(format!("{}:ZoneExists", i)) }
+                    cx.verdict(res.is_ok() == want_ok, "zonetree_insert_result", &ops_s, &format!("op {} returned {:?}", i, res.is_ok()));
+                    if want_ok { set.insert((*c, tlabels(n)), *id); }
                 }
-                TOp::Rem(n) => {
-                    let res = tree.remove_zone(&tname(n), Class::IN);
+                TOp::Rem(n, c) => {
+                    let res = tree.remove_zone(&tname(n), Class::from_int(*c));
                     if res.is_err() { errs.push(format!("{}:ZoneDoesNotExist", i)); }
-                    let want_ok = set.remove(&tlabels(n)).is_some();
+                    let want_ok = set.remove(&(*c, tlabels(n))).is_some();
                     cx.verdict(res.is_ok() == want_ok, "zonetree_remove_zone_not_recursive", &ops_s, &format!("remove op {} returned ok={} expected ok={}", i, res.is_ok(), want_ok));
-                    removed_any = true;
                 }
             }
         }
         let es = if errs.is_empty() { "-".to_string() } else { errs.join(",") };
-        let idof = |z: Option<&Zone>| -> String { match z { Some(z) => ids.get(&z.apex_name().to_string().to_ascii_lowercase()).map(|i| i.to_string()).unwrap_or_else(|| "?".into()), None => "-".into() } };
-        let class = "zonetree_find_not_closest_zone";
-        let removed_any = false && removed_any;
-        // every name over the alphabet to depth 3 (+ one deeper) as find / get queries
+        let idof = |z: Option<&Zone>| -> String { match z { Some(z) => ids.get(&(z.apex_name().to_string().to_ascii_lowercase(), z.class().to_int())).map(|i| i.to_string()).unwrap_or_else(|| "?".into()), None => "-".into() } };
+        // every name over the alphabet to depth 3 (+ one deeper) as find / get queries, in every class used
         let mut qs: Vec<String> = vec![".".into()];
         for a in ["a", "b", "c", "q"] { qs.push(format!("{}.", a)); for b2 in ["a", "b", "c"] { qs.push(format!("{}.{}.", b2, a)); if r.chance(1, 3) { for c2 in ["a", "b", "c", "q"] { qs.push(format!("{}.{}.{}.", c2, b2, a)); } } } }
         qs.push("a.a.a.a.".into());
-        for q in &qs {
-            let f = idof(tree.find_zone(&tname(q), Class::IN));
-            cx.out.case(&format!("tree {} ? f {}", ops_s, q), &format!("F={} E={}", f, es), f != "-", "tree/find");
-            // closest enclosing zone: the zone with the longest apex that is an ancestor-or-self of q
+        let classes: Vec<u16> = if multi || ti < n_corpus { vec![1, 3, 4] } else { vec![1] };
+        for c in &classes { for q in &qs {
+            if *c != 1 && !r.chance(1, 2) { continue; }
+            let f = idof(tree.find_zone(&tname(q), Class::from_int(*c)));
+            cx.out.case(&format!("tree {} ? f {} {}", ops_s, q, c), &format!("F={} E={}", f, es), f != "-", "tree/find");
+            // closest enclosing zone of the class: the zone with the longest apex that is an ancestor-or-self of q
             let ql = tlabels(q);
-            let want = (0..=ql.len()).rev().find_map(|k| set.get(&ql[..k].to_vec())).map(|i| i.to_string()).unwrap_or_else(|| "-".into());
-            cx.verdict(f == want, class, &format!("tree {} ? f {}", ops_s, q), &format!("find_zone gives {} expected {}", f, want));
+            let want = (0..=ql.len()).rev().find_map(|k| set.get(&(*c, ql[..k].to_vec()))).map(|i| i.to_string()).unwrap_or_else(|| "-".into());
+            cx.verdict(f == want, "zonetree_find_not_closest_zone", &format!("tree {} ? f {} {}", ops_s, q, c), &format!("find_zone gives {} expected {}", f, want));
             if r.chance(1, 3) {
-                let g = idof(tree.get_zone(&tname(q), Class::IN));
-                cx.out.case(&format!("tree {} ? g {}", ops_s, q), &format!("G={} E={}", g, es), g != "-", "tree/get");
-                let want = set.get(&ql).map(|i| i.to_string()).unwrap_or_else(|| "-".into());
-                cx.verdict(g == want, if removed_any { class } else { "zonetree_get_wrong" }, &format!("tree {} ? g {}", ops_s, q), &format!("get_zone gives {} expected {}", g, want));
+                let g = idof(tree.get_zone(&tname(q), Class::from_int(*c)));
+                cx.out.case(&format!("tree {} ? g {} {}", ops_s, q, c), &format!("G={} E={}", g, es), g != "-", "tree/get");
+                let want = set.get(&(*c, ql.clone())).map(|i| i.to_string()).unwrap_or_else(|| "-".into());
+                cx.verdict(g == want, "zonetree_get_wrong", &format!("tree {} ? g {} {}", ops_s, q, c), &format!("get_zone gives {} expected {}", g, want));
             }
-        }
-        let mut l: Vec<u32> = tree.iter_zones().map(|z| *ids.get(&z.apex_name().to_string().to_ascii_lowercase()).unwrap_or(&0)).collect();
+        } }
+        let mut l: Vec<u32> = tree.iter_zones().map(|z| *ids.get(&(z.apex_name().to_string().to_ascii_lowercase(), z.class().to_int())).unwrap_or(&0)).collect();
         l.sort();
         let ls = if l.is_empty() { "-".to_string() } else { l.iter().map(|x| x.to_string()).collect::<Vec<_>>().join(",") };
         cx.out.case(&format!("tree {} ? l", ops_s), &format!("L={} E={}", ls, es), !l.is_empty(), "tree/list");
         let mut want: Vec<u32> = set.values().cloned().collect(); want.sort();
-        cx.verdict(l == want, if removed_any { class } else { "zonetree_iter_wrong" }, &format!("tree {} ? l", ops_s), &format!("iter_zones gives {:?} expected {:?}", l, want));
+        cx.verdict(l == want, "zonetree_iter_wrong", &format!("tree {} ? l", ops_s), &format!("iter_zones gives {:?} expected {:?}", l, want));
     }
 }
 
@@ -1537,5 +1603,6 @@ fn main() {
     }
     let n_trees = (if a.thorough { 3000 } else { 120 }) * a.scale;
     tree_cases(&mut cx, &mut r, n_trees);
+    to_message_small_target(&mut cx);
     cx.out.finish(&[]);
 }
